@@ -113,9 +113,15 @@ impl ThreadPool {
             }
         }
 
+        #[cfg(feature = "verif_hooks")]
+        crate::verif::point(1);
+
         // Run the task on the main thread.
         let main_result =
             std::panic::catch_unwind(AssertUnwindSafe(|| task.run(0)));
+
+        #[cfg(feature = "verif_hooks")]
+        crate::verif::point(2);
 
         // Wait for other threads to finish writing their results.
         //
@@ -123,12 +129,26 @@ impl ThreadPool {
         // by the task on other threads will become visible to this thread after
         // returning from `broadcast`.
         while task.shared.as_ref().ref_count.load(Ordering::Acquire) > 0 {
+            #[cfg(feature = "verif_hooks")]
+            crate::verif::point(3);
+
             std::thread::park();
+
+            #[cfg(feature = "verif_hooks")]
+            crate::verif::point(4);
         }
+
+        #[cfg(feature = "verif_hooks")]
+        crate::verif::point(5);
 
         // Don't drop our result until other threads finish, in case the panic
         // error's drop handler itself also panics.
         drop(main_result);
+    }
+
+    #[cfg(feature = "verif_hooks")]
+    pub(crate) fn verif_thread_count(&self) -> usize {
+        self.threads.lock().unwrap_or_else(PoisonError::into_inner).len()
     }
 
     #[cfg(test)]
@@ -241,6 +261,9 @@ fn spawn(additional: NonZeroUsize, threads: &mut Vec<mpsc::SyncSender<Task>>) {
                 let panic_guard = defer(|| std::process::abort());
 
                 while let Ok(task) = receiver.recv() {
+                    #[cfg(feature = "verif_hooks")]
+                    crate::verif::point(10);
+
                     // Run the task on this auxiliary thread.
                     //
                     // SAFETY: The task is valid until `ref_count == 0`.
@@ -255,10 +278,16 @@ fn spawn(additional: NonZeroUsize, threads: &mut Vec<mpsc::SyncSender<Task>>) {
                     // SAFETY: This release operation makes writes within the task
                     // become visible to the main thread.
                     unsafe {
+                        #[cfg(feature = "verif_hooks")]
+                        crate::verif::point(11);
+
                         // Clone the main thread's handle for unparking because the
                         // `TaskShared` will be invalidated when `ref_count` is 0.
                         let main_thread =
                             task.shared.as_ref().main_thread.clone();
+
+                        #[cfg(feature = "verif_hooks")]
+                        crate::verif::point(12);
 
                         if task
                             .shared
@@ -267,8 +296,14 @@ fn spawn(additional: NonZeroUsize, threads: &mut Vec<mpsc::SyncSender<Task>>) {
                             .fetch_sub(1, Ordering::Release)
                             == 1
                         {
+                            #[cfg(feature = "verif_hooks")]
+                            crate::verif::point(13);
+
                             main_thread.unpark();
                         }
+
+                        #[cfg(feature = "verif_hooks")]
+                        crate::verif::point(14);
                     }
 
                     // Don't drop our result until after notifying the main thread,
